@@ -52,6 +52,11 @@ class CustomTypeError(TypeError):
     """a fault of the TypeError family (what a wrongly typed forwarded option produces inside an element)"""
 
 
+class CustomValueError(ValueError):
+    """a fault of the ValueError family — the class the field layer itself catches when it READS (an
+    unparsable span is a missing value); raised while an element is WRITTEN it is a fault like any other"""
+
+
 class CustomNotImplemented(NotImplementedError):
     """what a read-only element (one that implements read() only) raises from write()"""
 
@@ -64,7 +69,7 @@ MORE_EXC = {"NotImplementedError": NotImplementedError, "CustomNotImplemented": 
             "UnicodeError": UnicodeError, "RuntimeError": RuntimeError, "RecursionError": RecursionError,
             "ZeroDivisionError": ZeroDivisionError, "OverflowError": OverflowError, "MemoryError": MemoryError,
             "BufferError": BufferError, "NameError": NameError, "StopAsyncIteration": StopAsyncIteration,
-            "Exception": Exception}
+            "Exception": Exception, "CustomValueError": CustomValueError}
 
 EXC = {"ValueError": ValueError, "KeyError": KeyError, "Custom": CustomFault, "CustomStop": CustomStop, "CustomWithArgs": CustomWithArgs,
        "TypeError": TypeError, "CustomTypeError": CustomTypeError}
@@ -362,6 +367,10 @@ def all_cases():
                                     yield {"family": fam, "binary": binary, "direction": direction, "where": where, "n": n, "k": k, "exc": exc, "forward": True}
                                 if fam == "register" and not binary and k is not None and exc in ("KeyError", "Custom") and where in ("path", "buffer"):
                                     yield {"family": fam, "binary": binary, "direction": direction, "where": where, "n": n, "k": k, "exc": exc, "field_fault": True}
+                                if fam == "register" and not binary and k is not None and exc == "ValueError" and direction == "write" and where in ("path", "buffer"):
+                                    # a ValueError (or a subclass) raised from inside a field while the element is WRITTEN
+                                    yield {"family": fam, "binary": binary, "direction": direction, "where": where, "n": n, "k": k, "exc": "ValueError", "field_fault": True}
+                                    yield {"family": fam, "binary": binary, "direction": direction, "where": where, "n": n, "k": k, "exc": "CustomValueError", "field_fault": True}
                                 if direction == "write" and where in ("path", "buffer") and exc in ("ValueError", "Custom") and (k is None or k % 2 == 0):
                                     yield {"family": fam, "binary": binary, "direction": direction, "where": where, "n": n, "k": k, "exc": exc, "own_slot": True}
                                 if direction == "read" and k is not None and exc in ("ValueError", "Custom"):
